@@ -393,6 +393,19 @@ class Project:
             return None
         return self.eval_const(mi, expr, _depth)
 
+    def const_expr(self, mi: ModuleInfo, name: str, _depth: int = 0):
+        """(module, AST) of a module-level constant's defining expression,
+        following imports inside the package; None if unknown."""
+        if _depth > 5:
+            return None
+        if name in mi.constants:
+            return mi, mi.constants[name]
+        if name in mi.imports:
+            t = self.lookup_internal(mi.imports[name])
+            if isinstance(t, tuple):
+                return self.const_expr(t[0], t[1], _depth + 1)
+        return None
+
     def eval_const(self, mi: ModuleInfo, expr: ast.AST, _depth: int = 0):
         if isinstance(expr, ast.Constant):
             return expr.value
